@@ -1,4 +1,5 @@
 // @parent src/buf/buf_impl.rs
+// @requires std
 // C09, chunks_vectored: "fills at most dst.len() slices whose concatenation is a prefix of the
 // sequence, with at least one non-empty slice when bytes remain and dst is non-empty, and dst
 // untouched beyond the returned count" - for the default method, Chain, Take (incl. its lifetime
